@@ -404,12 +404,18 @@ def implied(c, truth):
     return out
 
 
-def guarded(body, bb, rel, px, py):
-    """is block bb control-dependent on a test implying `x rel y` with px(x) and py(y)?  px/py: Operand -> bool"""
+def guarded(body, bb, rel, px, py, strict=None):
+    """is block bb control-dependent on a test implying `x rel y` with px(x) and py(y)?  px/py: Operand -> bool.
+    strict (for rel == "le"): None = either; False = the test must be exactly `x <= y` (not `x < y`); True = must be `x < y`."""
     for c, truth, d, *_ in controlling(body, bb):
-        for r, x, y in implied(c, truth):
+        rels = implied(c, truth)
+        for r, x, y in rels:
             if r == rel and px(x) and py(y):
-                return True
+                if strict is None or rel != "le":
+                    return True
+                is_strict = any(r2 == "lt" and x2 is x and y2 is y for r2, x2, y2 in rels)
+                if is_strict == strict:
+                    return True
     return False
 
 
